@@ -3,6 +3,7 @@ Pure (stateless) requests of the line protocol. Not part of any proof.
 -/
 import Verif.Driver.Codec
 import Verif.Spec.Rfc4511
+import Verif.Model.FilterText
 
 open Lean
 
@@ -48,6 +49,16 @@ def pureOp (op : String) (j : Json) : Except String Json := do
     match Rfc.decode (← getBytes j "hex") with
     | some m => return Json.mkObj [("ok", msgToJson m)]
     | none => return Json.mkObj [("err", "reject")]
+  | "ftext" => return Json.mkObj [("hex", jBytes (toText (← filterFromJson (← j.getObjVal? "filter"))))]
+  | "fparse" =>
+    let cps ← (← getArr j "cps").mapM (fun x => x.getNat?)
+    let depth := (getNat j "depth").toOption.getD 200
+    match parseFilterText depth cps with
+    | .ok f => return Json.mkObj [("ok", filterToJson f)]
+    | .error (.syntax off len) => return Json.mkObj [("err", Json.mkObj [("off", off), ("len", len)])]
+    | .error .recursion => return Json.mkObj [("err", "recursion")]
+    | .error .fuel => return Json.mkObj [("err", "fuel")]
+  | "attr_valid" => return Json.mkObj [("ok", Json.bool (validAttr (← getBytes j "hex")))]
   | _ => throw s!"unknown op {op}"
 
 end Verif.Driver
